@@ -1,5 +1,6 @@
 import SJ.Proofs.Tables
 import SJ.Proofs.ParseWF
+import SJ.Proofs.NopExact
 import SJ.Proofs.Located
 import SJ.Proofs.Rebuild
 import SJ.Proofs.DecodeSound
@@ -64,5 +65,18 @@ theorem C17_parse_wf (cfg : Cfg) (nd : Bool) (input : Bytes) (pj : PJ) (hsz : Si
     (h : parseAny cfg nd input = .ok pj) : (∃ d, WF pj d) ∧ wfCheckD pj = true ∧ pj.msg = trimSpace input := by
   obtain ⟨lvs, _, _, _, hwf, hc, _, hm, _⟩ := SJ.ParseWF.parse_wf cfg nd input pj hsz h
   exact ⟨⟨_, hwf⟩, hc, hm⟩
+
+open SJ.Layout in
+/-- **Deserialized NOP runs land exactly on the next live entry.** For every tape that denotes a document (C17's
+    format, gaps of any legal shape left by edits and deletions, e.g. skips 2,1,3,2,1 after two adjacent deletions),
+    every hash function and every prior content of the destination tape: in the tape rebuilt by `Deserialize` from
+    `Serialize`'s sections every NOP word's skip count is exactly the distance to the end of its run of NOP words
+    (`nopsExact`: a linear scan that steps over the data word of two-word values finds no exception). This is
+    strictly stronger than the format itself, which parse results and edited tapes obey (`NopExact.gapPJ`). -/
+theorem C17_deser_nops_exact (pj : PJ) (d : List JVal) (hash : Bytes → Nat) (hwf : WF pj d) (hsz : pj.tape.size < 2^56)
+    (hb : pj.tape.size * max pj.msg.size pj.strings.size < 2^55) (sec : Sections) (hs : serialize pj hash = .ok sec)
+    (init : Array UInt64) (hi : init.size = sec.tapeSize) (pj' : PJ) (hd : deserializeSections sec init = .ok pj') :
+    nopsExact pj' = none :=
+  NopExact.deser_nops_exact pj d hash hwf hsz hb sec hs init hi pj' hd
 
 end SJ.Properties.C17
